@@ -188,7 +188,7 @@ Spec == Init /\ [][Next]_vars
 Posed   == pc \notin {"start"}
 HasPri  == pc \in {"predict", "stack", "obs", "forecast", "update", "advance"}
 HasPred == pc \in {"stack", "obs", "forecast", "update", "advance"}
-HasFc   == pc \in {"update", "advance"} /\ Len(obs) > 0
+HasFc   == pc = "update"
 HasEst  == pc = "advance"
 
 \* a relation whose own verification arithmetic is not representable is left undecided
